@@ -186,10 +186,17 @@ def gen_dtype_boundary_records(rng, n):
         top = mx - rng.randint(0, max(0, n_un - 2))       # largest reference label close to the maximum
         ref_labels = [top - j * rng.randint(1, 3) for j in range(n_ref)]
         pred_labels = rng.sample(range(1, 200), n_un + n_ref)
+        if rng.random() < 0.35 and mx < 2**63:
+            # a prediction label that is the complement of the largest reference label to the dtype's modulus
+            # (label arithmetic in the array's own dtype would turn it into background or into another label)
+            comp = (mx + 1 - top) if rng.random() < 0.6 else (mx + 1 - top) + rng.randint(1, 3)
+            if comp >= 1 and comp not in pred_labels:
+                pred_labels[-1] = comp
+        overlap_p = 0.0 if rng.random() < 0.3 else 0.7      # sometimes nothing overlaps at all: nothing is matched
         for j, rl in enumerate(ref_labels):
             p = free.pop()
             ref[p] = rl
-            if rng.random() < 0.7:
+            if rng.random() < overlap_p:
                 pred[p] = pred_labels[j]                   # overlapping prediction
         for j in range(n_un):
             p = free.pop()
@@ -516,12 +523,15 @@ def directly_constructed_results(rng, n):
     for _ in range(n):
         nref, npred = rng.randint(0, 4), rng.randint(0, 4)
         tp = rng.randint(0, min(nref, npred))
-        cfg = default_cfg(input="DIRECT", im=["DSC", "IOU", "RVD"], gm=["DSC"], h=rng.choice([DEFAULT_H, DISTINCT_H]))
+        with_cl = rng.random() < 0.5
+        cfg = default_cfg(input="DIRECT", im=["DSC", "IOU", "RVD"] + (["clDSC"] if with_cl else []), gm=["DSC"], h=rng.choice([DEFAULT_H, DISTINCT_H]))
         lists = {}
         iou = [rng.choice(vals) for _ in range(tp)]
         lists["IOU"] = iou
         lists["DSC"] = [2 * x / (1 + x) for x in iou]
         lists["RVD"] = [rng.choice([-0.5, 0.0, 0.25, 1.0]) for _ in range(tp)]
+        if with_cl:
+            lists["clDSC"] = [rng.choice([0.125, 0.375, 0.625, 0.875, 1.0]) for _ in range(tp)]     # every pq_<m> is sq_<m> * rq
         with quiet():
             res = PanopticaResult(reference_arr=None, prediction_arr=None, num_pred_instances=npred, num_ref_instances=nref,
                                   tp=tp, list_metrics={METRIC[m]: lists[m] for m in lists}, edge_case_handler=make_handler(cfg["h"]),
